@@ -324,7 +324,9 @@ def rand_ptypes(g, kmax=2):
     out = []
     for _ in range(n):
         r = rng.random()
-        if r < 0.55:
+        if rng.random() < g.P.get("vec_param", 0.0):
+            out.append(V(rng.choice([2, 3]), ["F", "real"]))
+        elif r < 0.55:
             out.append(["F", "real"])
         elif r < 0.7:
             out.append(["F", rng.choice(["pos", "prob"])])
@@ -500,6 +502,10 @@ def gen_any(g, depth, budget=None, kinds=None):
         if 0 not in axes:
             cand = [i for i, t in enumerate(ins) if liftable(t)]
             axes[rng.choice(cand)] = 0
+        # a vector argument may also be mapped over its second axis (in_axes=1)
+        for i, t in enumerate(ins):
+            if axes[i] == 0 and t[0] == "V" and t[2][0] in ("F", "B", "I") and n > 0 and rng.random() < P.get("axis1", 0.35):
+                axes[i] = 1
         return {"k": "vmap", "inner": inner, "axes": axes, "n": n}
     if k == "repeat":
         per = max(1, budget // max(n, 1))
